@@ -137,6 +137,8 @@ def connection_histories(chk, t):
                 steps.append(('refused',))
             else:
                 steps.append(('login',))
+        if n == 0:      # one history every run performs: a login, a version switch, a refused connect, a login
+            steps = [('version', 340), ('login',), ('version', 754), ('refused',), ('login',), ('version', 47), ('refused',), ('refused',), ('login',)]
         servers = []
         for st in steps:
             if st[0] == 'refused':
@@ -152,6 +154,7 @@ def connection_histories(chk, t):
             cur = next((s[1] for s in steps if s[0] == 'version'), pv)
             conn = Connection('localhost', 25565, username='user', allowed_versions={cur}, handle_exception=lambda e, i: None)
             done = []
+            reused = None
             for st in steps:
                 done.append(list(st))
                 if st[0] == 'version':
@@ -184,6 +187,25 @@ def connection_histories(chk, t):
                 if type(conn.reactor).__name__ != 'PlayingReactor' or got != exp:
                     bad = sorted(k for k in set(got) | set(exp) if got.get(k) is not exp.get(k))
                     what = 'play decoder table at protocol %d is not the table of that version (%s, ids %s)' % (cur, type(conn.reactor).__name__, [hex(b) for b in bad[:6]])
+                    break
+                # the same packet OBJECT written on this connection after it was written on connections of other versions (and one
+                # built with another version's context): it goes out under the id its class has at THIS connection's version
+                from minecraft.networking.packets import serverbound as sbp
+                if reused is None:
+                    reused = sbp.play.ChatPacket()
+                    reused.message = 'hi'
+                foreign = sbp.play.ChatPacket(context=ConnectionContext(protocol_version=rng.choice(sup)))
+                foreign.message = 'hi'
+                for pkt in (reused, foreign):
+                    nb = len(srv.sends)
+                    conn.write_packet(pkt, force=True)
+                    fr = proto.parse_frames(b''.join(srv.sends[nb:]))
+                    want = sbp.play.ChatPacket.get_id(ConnectionContext(protocol_version=cur))
+                    if [f[0] for f in fr] != [want]:
+                        what = 'a chat packet object used before on another version is written at protocol %d with id %s; its class has id 0x%02X there' % (
+                            cur, [hex(f[0]) for f in fr], want)
+                        break
+                if what:
                     break
         except Exception as e:
             what = 'history raised %s' % type(e).__name__
